@@ -1,6 +1,6 @@
 (* Extraction of the executable model.  ExtrOcamlBasic only: bool, option, unit, list, prod,
    sumbool, sumor map to OCaml's own types; Z / positive / nat / string / ascii stay inductive. *)
 From Coq Require Import Extraction ExtrOcamlBasic.
-From UDS Require Import Model.Dispatch.
+From UDS Require Import Model.Dispatch Model.Ecu.
 Extraction Language OCaml.
-Extraction "model.ml" run_case.
+Extraction "model.ml" run_case ecu_init ecu_step enc_ecu.
